@@ -26,8 +26,20 @@ Definition recorded (i : instr) (s s' : mstate) (v : tvariant) : Prop :=
 
 (* what an instruction may do to the log: record the one event and succeed, or fail and
    leave the log alone *)
-Definition log_outcome (i : instr) (v : tvariant) (s : mstate) (r : outcome unit) (s' : mstate) : Prop :=
-  (r = Ok tt /\ recorded i s s' v) \/ (r <> Ok tt /\ same_log s s').
+Definition log_outcome (i : instr) (v : tvariant) (tgt : option Z) (s : mstate) (r : outcome unit) (s' : mstate) : Prop :=
+  (r = Ok tt /\ recorded i s s' v /\ match tgt with Some t => regs s' RIP = t | None => True end) \/
+  (r <> Ok tt /\ same_log s s').
+
+(* relative forms: the target is the instruction's near-branch operand.  (JMP rel8 with a
+   16-bit operand size is excluded: its truncation of RIP is vendor specific.) *)
+Definition rel_target (i : instr) : Z := cast I64 U64 (cast U64 I64 (i_near_branch64 i)).
+Definition is_rel (sm : option ISA.sem) : bool :=
+  match sm with
+  | Some (SJcc _) | Some SJmpRel | Some SCallRel | Some SJrcxz | Some SJecxz => true
+  | _ => false
+  end.
+Definition rel_target_of (sm : option ISA.sem) (i : instr) : option Z :=
+  if is_rel sm && negb (code_eqb (i_code i) C_Jmp_rel8_16) then Some (rel_target i) else None.
 
 (* a taken transfer (by the ISA specification's branch condition) is recorded exactly once
    when the instruction completes; an untaken one leaves the log untouched *)
@@ -35,7 +47,11 @@ Definition cf_ok (i : instr) (F : MM unit) : Prop :=
   forall s, pre i s ->
     exists r s', F s = (r, s') /\
       let sm := code_sem (i_code i) in
-      if taken sm s then log_outcome i (variant_of sm) s r s' else same_log s s'.
+      if taken sm s then log_outcome i (variant_of sm) (rel_target_of sm i) s r s'
+      else same_log s s' /\ (r = Ok tt -> sm <> None -> s' = s).
+
+Lemma log_outcome_weaken i v t s r s' : log_outcome i v (Some t) s r s' -> log_outcome i v None s r s'.
+Proof. intros [(A & B & _)|H]; [left; split; [exact A|split; [exact B|exact I]]|right; exact H]. Qed.
 
 (* recording one event from a state whose log and RIP are those of [s] *)
 Lemma record_from c i tgt v s s0 :
@@ -124,7 +140,7 @@ Lemma call_tail c i tgt s :
             _ <- (reg_write_64 c RIP tgt) ;;
             _ <- (call_stack_push tgt) ;;
             ret (tt))%M in
-  exists r s', F s = (r, s') /\ log_outcome i TCall s r s'.
+  exists r s', F s = (r, s') /\ log_outcome i TCall (Some tgt) s r s'.
 Proof.
   intros Hpre. cbv zeta. rewrite !bind_assoc.
   rewrite (bind_ok _ _ _ _ _ (rr64_rip c s)). rewrite !bind_assoc.
@@ -147,6 +163,7 @@ Proof.
   unfold trace_call. rewrite (bind_ok _ _ _ _ _ E). rewrite (bind_ok _ _ _ _ _ (rw64_rip c _ s3)).
   unfold bind, call_stack_push, ret. eexists. eexists. split; [reflexivity|]. left. split; [reflexivity|].
   unfold recorded. cbn [regs set_regs set_call_stack trace call_stack]. rewrite upd_same.
+  split; [|reflexivity].
   split; [exact X|]. split; [repeat split; assumption|].
   rewrite Es3. cbn [call_stack set_trace]. unfold s2. cbn [call_stack set_regs]. rewrite K3. reflexivity.
 Qed.
@@ -159,7 +176,7 @@ Lemma ret_tail c i rsp s :
             _ <- (reg_write_64 c RIP v_rip) ;;
             _ <- (reg_write_64 c RSP rsp) ;;
             ret (tt))%M in
-  exists r s', F s = (r, s') /\ log_outcome i TReturn s r s'.
+  exists r s', F s = (r, s') /\ log_outcome i TReturn None s r s'.
 Proof.
   intros Hpre. cbv zeta.
   pose proof (readonly_mem_read_64 rsp s) as RO.
@@ -187,16 +204,17 @@ Proof.
   rewrite (bind_ok _ _ _ _ _ (rw64_rsp c _ _)). unfold ret. eexists. eexists. split; [reflexivity|]. left. split; [reflexivity|].
   unfold recorded. cbn [regs set_regs trace call_stack].
   assert (U : upd (upd (regs s3) RIP v) RSP rsp RIP = v) by reflexivity. rewrite U.
+  split; [|exact I].
   split; [exact X|]. split; [repeat split; assumption|].
   rewrite Es3. cbn [call_stack set_trace]. exact C2.
 Qed.
 
 Lemma jump_outcome c i tgt s :
   pre i s ->
-  exists r s', (trace_jump c i tgt;;; reg_write_64 c RIP tgt;;; ret tt)%M s = (r, s') /\ log_outcome i TJump s r s'.
+  exists r s', (trace_jump c i tgt;;; reg_write_64 c RIP tgt;;; ret tt)%M s = (r, s') /\ log_outcome i TJump (Some tgt) s r s'.
 Proof.
-  intros Hpre. destruct (jump_tail c i tgt s Hpre) as (s' & E & _ & R).
-  exists (Ok tt), s'. split; [exact E|left; split; [reflexivity|exact R]].
+  intros Hpre. destruct (jump_tail c i tgt s Hpre) as (s' & E & T & R).
+  exists (Ok tt), s'. split; [exact E|left; split; [reflexivity|split; [exact R|exact T]]].
 Qed.
 
 Lemma rr32_ecx c s : reg_read_32 c ECX s = (Ok (rf_read (regs s) ECX), s).
@@ -213,14 +231,14 @@ Ltac flag_cases :=
 Ltac branch_cases Hpre :=
   match goal with
   | s : mstate |- _ =>
-    try (exists (Ok tt), s; split; [reflexivity|apply same_log_refl]);
+    try (exists (Ok tt), s; split; [reflexivity|split; [apply same_log_refl|intros; reflexivity]]);
     try (destruct (i_op0_kind _); try (apply jump_outcome; exact Hpre);
          try (exists (Err EFatal), s; split; [reflexivity|right; split; [discriminate|apply same_log_refl]]))
   end.
 
 Ltac jcc_tac F :=
   let Ec := fresh "Ec" in let s := fresh "s" in let Hpre := fresh "Hpre" in
-  intros Ec s Hpre; cbv zeta; rewrite Ec; cbn [code_sem taken variant_of];
+  intros Ec s Hpre; cbv zeta; unfold rel_target_of; rewrite Ec; cbn [code_sem taken variant_of rel_target_of is_rel code_eqb andb negb];
   unfold F; rewrite Ec; cbn [code_eqb]; unfold debug_assert_that, assert_that;
   destruct (dbg _); cbn [bind lift ret get_rflags fst snd];
   unfold cond, flag, CF, PF, ZF, SF, OF, FLAG_CF, FLAG_PF, FLAG_ZF, FLAG_SF, FLAG_OF;
@@ -293,7 +311,7 @@ Proof. jcc_tac instr_js_rel32_64. Qed.
 
 Ltac start_form F :=
   let Ec := fresh "Ec" in
-  intros Ec s Hpre; cbv zeta; rewrite Ec; cbn [code_sem taken variant_of];
+  intros Ec s Hpre; cbv zeta; unfold rel_target_of; rewrite Ec; cbn [code_sem taken variant_of rel_target_of is_rel code_eqb andb negb];
   unfold F; rewrite Ec; cbn [code_eqb]; unfold debug_assert_that, assert_that;
   destruct (dbg _); cbn [bind lift ret fst snd].
 
@@ -305,7 +323,9 @@ Proof. start_form instr_jmp_rel32_64; branch_cases Hpre. Qed.
 Lemma cf_jmp_rel8_16 c i : i_code i = C_Jmp_rel8_16 -> cf_ok i (instr_jmp_rel8_16 c i).
 Proof.
   start_form instr_jmp_rel8_16.
-  all: rewrite (bind_ok _ _ _ _ _ (rr64_rip c s)); apply jump_outcome; exact Hpre.
+  all: rewrite (bind_ok _ _ _ _ _ (rr64_rip c s)); cbv zeta;
+       match goal with |- exists r s', (trace_jump _ _ ?t;;; _)%M _ = _ /\ _ =>
+         destruct (jump_outcome c i t s Hpre) as (r0 & s0 & E0 & L0); exists r0, s0; split; [exact E0|eapply log_outcome_weaken; exact L0] end.
 Qed.
 
 Lemma cf_jrcxz c i : i_code i = C_Jrcxz_rel8_64 -> cf_ok i (instr_jrcxz_rel8_64 c i).
@@ -330,7 +350,7 @@ Qed.
 
 Lemma notok_outcome {B} i v (m : MM B) (f : B -> MM unit) s r :
   m s = (r, s) -> (forall a, r <> Ok a) ->
-  exists r' s', bind m f s = (r', s') /\ log_outcome i v s r' s'.
+  exists r' s', bind m f s = (r', s') /\ log_outcome i v None s r' s'.
 Proof.
   intros E N. destruct (bind_notok m f s r s E N) as (r' & E' & N').
   exists r', s. split; [exact E'|]. right. split; [apply N'|apply same_log_refl].
@@ -366,7 +386,7 @@ Proof.
          replace (X st) with ((v_addr <- rm64_target c i;; _ <- trace_jump c i v_addr;; _ <- reg_write_64 c RIP v_addr;; ret tt)%M st)
            by (unfold rm64_target; rewrite bind_assoc; reflexivity) end.
   all: destruct (readonly_cases _ s (readonly_rm64_target c i)) as [[t E]|(r & E & N)];
-       [rewrite (bind_ok _ _ _ _ _ E); apply jump_outcome; exact Hpre|eapply notok_outcome; eassumption].
+       [rewrite (bind_ok _ _ _ _ _ E); destruct (jump_outcome c i t s Hpre) as (r0 & s0 & E0 & L0); exists r0, s0; split; [exact E0|eapply log_outcome_weaken; exact L0]|eapply notok_outcome; eassumption].
 Qed.
 
 Lemma cf_call_rm64 c i : i_code i = C_Call_rm64 -> cf_ok i (instr_call_rm64 c i).
@@ -380,7 +400,7 @@ Proof.
                  _ <- (call_stack_push v_target) ;; ret (tt))%M st)
            by (unfold rm64_target; rewrite bind_assoc; reflexivity) end.
   all: destruct (readonly_cases _ s (readonly_rm64_target c i)) as [[t E]|(r & E & N)];
-       [rewrite (bind_ok _ _ _ _ _ E); apply call_tail; exact Hpre|eapply notok_outcome; eassumption].
+       [rewrite (bind_ok _ _ _ _ _ E); destruct (call_tail c i t s Hpre) as (r0 & s0 & E0 & L0); exists r0, s0; split; [exact E0|eapply log_outcome_weaken; exact L0]|eapply notok_outcome; eassumption].
 Qed.
 
 Lemma cf_retnq c i : i_code i = C_Retnq -> cf_ok i (instr_retnq c i).
@@ -398,7 +418,7 @@ Ltac stuck_case :=
   | s : mstate |- exists r s', ?F _ = _ /\ _ =>
       eexists; exists s; split; [reflexivity|];
       match goal with
-      | |- if ?t then _ else _ => destruct t; [right; split; [discriminate|apply same_log_refl]|apply same_log_refl]
+      | |- if ?t then _ else _ => destruct t; [right; split; [discriminate|apply same_log_refl]|split; [apply same_log_refl|intros; reflexivity]]
       end
   end.
 
@@ -407,7 +427,8 @@ Ltac quiet_case :=
   | |- exists r s', ?F ?st = _ /\ _ =>
       exists (fst (F st)), (snd (F st)); split; [apply surjective_pairing|];
       cbn [code_sem taken];
-      let H := fresh in assert (H : quiet F) by auto with quietdb; apply H
+      split; [let H := fresh in assert (H : quiet F) by auto with quietdb; apply H
+             |let Hn := fresh in intros _ Hn; destruct (Hn eq_refl)]
   end.
 
 Ltac use_form L :=
